@@ -606,4 +606,11 @@ def cdxHeaderWritten (c : Cfg) (cdxExists : Bool) : Bool := c.cdx && (!c.appendi
 
 def cdxHeader : Str := lit " CDX a b m s k S V g u"
 
+/-- the lines of `PREFIX.cdx` after a life; `old` = the lines the file held before (`none`: no
+file).  `_start_new_cdx_file`: without `appending` the file is truncated and gets a header, with
+`appending` it is kept and gets a header only when it did not exist. -/
+def cdxFile (c : Cfg) (old : Option (List Str)) (s : St) : List Str :=
+  (if c.appending then old.getD [] else []) ++
+  (if cdxHeaderWritten c old.isSome then [cdxHeader] else []) ++ s.cdxLines
+
 end Wpull.Warc
